@@ -260,6 +260,20 @@ impl World {
         "ok".into()
     }
 
+    /// the kill signal and the command that lets `pre_start` return Ok are both pending when the
+    /// start future is polled next: the kill must win (signal port is polled first)
+    async fn killrace(&mut self, a: usize) -> String {
+        if let Some(Some(c)) = self.slots.get(a).map(|s| s.cell.clone()) {
+            c.kill();
+        }
+        if let Some(Some(g)) = self.slots.get(a).map(|s| s.gate.as_ref()) {
+            let _ = g.send(Cmd::Finish(0));
+        }
+        quiesce().await;
+        self.refresh_cells();
+        "ok".into()
+    }
+
     async fn stop(&mut self, a: usize) -> String {
         if let Some(Some(c)) = self.slots.get(a).map(|s| s.cell.clone()) {
             c.stop(None);
@@ -414,6 +428,7 @@ impl World {
             }
             ["cut", a] => self.cut(us(a)).await,
             ["kill", a] => self.kill(us(a)).await,
+            ["killrace", a] => self.killrace(us(a)).await,
             ["stop", a] => self.stop(us(a)).await,
             ["obs"] => self.obs().await,
             _ => "bad-op".into(),
@@ -455,7 +470,8 @@ async fn gen_case(log: &mut Log, st: &mut Stats, rng: &mut Rng, case_no: u64) {
                 60..=69 => format!("finish {a} ok"),
                 70..=76 => format!("finish {a} {}", if rng.chance(1, 2) { "err" } else { "panic" }),
                 77..=85 => format!("cut {a}"),
-                86..=91 => format!("kill {a}"),
+                86..=88 => format!("kill {a}"),
+                89..=91 => format!("killrace {a}"),
                 92..=96 if !running.is_empty() => format!("stop {}", rng.pick(&running)),
                 _ if !running.is_empty() => format!("kill {}", rng.pick(&running)),
                 _ => format!("cut {a}"),
